@@ -331,21 +331,21 @@ func tryReplay(prop, dir string, o *Obligation, opts solveOpts) bool {
 	src := strings.Replace(string(tmpl), "/*INPUTS*/", "`"+strings.ReplaceAll(string(data), "`", "'")+"`", 1)
 	testFile := filepath.Join(dir, "replay_test.go")
 	os.WriteFile(testFile, []byte(src), 0o644)
-	ok, out := runReplay(dir, pkgDir)
+	ok, out := runReplay(dir, pkgDir, 60)
 	appendReport("\nreplay against the real code (replay_test.go, go test -overlay):\n" + out + "\n")
 	return ok
 }
 
-func runReplay(dir, pkgDir string) (bool, string) {
+func runReplay(dir, pkgDir string, limitS int) (bool, string) {
 	root := repoRoot()
 	ov := map[string]map[string]string{"Replace": {filepath.Join(root, pkgDir, "zz_govc_replay_test.go"): filepath.Join(dir, "replay_test.go")}}
 	ovData, _ := json.Marshal(ov)
 	ovFile := filepath.Join(dir, "overlay.json")
 	os.WriteFile(ovFile, ovData, 0o644)
 	os.WriteFile(filepath.Join(dir, "replay_pkg.txt"), []byte(pkgDir), 0o644)
-	ctx, cancel := context.WithTimeout(context.Background(), 180*time.Second)
+	ctx, cancel := context.WithTimeout(context.Background(), time.Duration(limitS+120)*time.Second)
 	defer cancel()
-	cmd := exec.CommandContext(ctx, "go", "test", "-overlay", ovFile, "-vet=off", "-count=1", "-timeout", "60s", "-run", "^TestGovcReplay$", "./"+pkgDir+"/")
+	cmd := exec.CommandContext(ctx, "go", "test", "-overlay", ovFile, "-vet=off", "-count=1", "-timeout", fmt.Sprintf("%ds", limitS), "-run", "^TestGovcReplay$", "./"+pkgDir+"/")
 	cmd.Dir = root
 	cmd.Env = append(os.Environ(), "GOFLAGS=-mod=mod", "GOPROXY=off", "GOSUMDB=off", "GOTOOLCHAIN=local")
 	b, _ := cmd.CombinedOutput()
@@ -406,7 +406,7 @@ func cmdReplay(args []string) int {
 		fmt.Println("no replay test was generated for this obligation (no model, or no template for the function): no-failing-input-found")
 		return 1
 	}
-	ok, out := runReplay(dir, strings.TrimSpace(string(pk)))
+	ok, out := runReplay(dir, strings.TrimSpace(string(pk)), 900) // by hand: a bounded stand-in may take minutes
 	fmt.Println("re-running replay_test.go against the current tree:")
 	fmt.Println(out)
 	if ok {
